@@ -17,6 +17,7 @@ THEOREMS = [NS + t for t in (
     "c15_version_isolated", "c15_only_stored", "c15_fetch_once",
 )] + ["Zeep.Base64.base64_rt"]
 LEVEL = "proof"
+THOROUGH_SEEDS = 1          # the thorough tier of this check is already long: one further seed
 MANIFEST = dict(
     engine="K: lean/ZeepModel/Cache.lean (+ Lex/Base64.lean)",
     technique="Lean 4 refinement proof (row store with version prefix and base64 refines 'latest store per url', induction over arbitrary histories with arbitrary clock values) + exhaustive differential tie under a controlled clock",
